@@ -34,6 +34,7 @@ package buffer
 //@   opt atomic mu
 //@   assert at return 1 old(b.closing) && result0 == errBufferClosed && len(b.backlog) == old(len(b.backlog)) && len(b.c) == old(len(b.c))
 //@   assert at return 2 !old(b.closing) && old(len(b.backlog)) == 0 && result0 == nil && len(b.backlog) == 0 && old(len(b.c)) == 0 && !isclosed(b.c)
+//@   assert at call chansend#1 arg0 == b.c && sameval(arg1, t) && len(b.backlog) == 0 && !b.closing
 //@   assert at call append#1 !old(b.closing) && sameslice(arg0, b.backlog) && (len(b.backlog) > 0 || len(b.c) == 1)
 //@   assert at return 3 result0 == nil && len(b.backlog) == old(len(b.backlog)) + 1
 
@@ -46,6 +47,7 @@ package buffer
 //@   ensures len(b.backlog) == old(len(b.backlog)) || len(b.backlog) == old(len(b.backlog)) - 1 && old(len(b.c)) == 0
 //@   ensures implies(old(len(b.backlog)) > 0 && old(len(b.c)) == 0, len(b.backlog) == old(len(b.backlog)) - 1)
 //@   ensures implies(old(len(b.backlog)) > 0, !isclosed(b.c))
+//@   assert at call chansend#1 arg0 == b.c && len(b.backlog) > 0 && sameval(arg1, b.backlog[0]) && !isclosed(b.c)
 //@   assert at call close#1 old(len(b.backlog)) == 0 && b.closing && !old(b.closed) && !isclosed(b.c) && arg0 == b.c
 
 // Close: starts closing (idempotent); the channel is closed right away only
